@@ -561,6 +561,7 @@ fn c17_get_commands_last_segment() {
 fn c17_get_commands_exhausted() {
     let (m, idx) = get_commands_case(2, 6, 2);
     assert!(m == 0 && idx == 2);
+    kani::cover!(true, "nothing pending");
 }
 
 /// get_next with a target that is large enough: message_index + 1 per response, next_send never
